@@ -36,15 +36,16 @@ FORBIDDEN = re.compile(
     r"type-in-type|impredicative-set)\b")
 
 
-def sh(cmd, timeout=None, cwd=None, env=None, inp=None):
+def sh(cmd, timeout=None, cwd=None, env=None, inp=None, merge_stderr=True):
     e = dict(os.environ)
     e.update({"CARGO_NET_OFFLINE": "true"})
     if env:
         e.update(env)
     try:
         p = subprocess.run(cmd, shell=isinstance(cmd, str), cwd=cwd, env=e, input=inp,
-                           stdout=subprocess.PIPE, stderr=subprocess.STDOUT, timeout=timeout, text=True,
-                           errors="replace")
+                           stdout=subprocess.PIPE,
+                           stderr=subprocess.STDOUT if merge_stderr else subprocess.DEVNULL,
+                           timeout=timeout, text=True, errors="replace")
         return p.returncode, p.stdout
     except subprocess.TimeoutExpired as ex:
         out = ex.stdout or ""
@@ -263,7 +264,7 @@ def _run_shard(args):
         f.write("\n".join(lines) + "\n")
         name = f.name
     try:
-        rc, out = sh(cmd + [name], timeout=timeout)
+        rc, out = sh(cmd + [name], timeout=timeout, merge_stderr=False)
     finally:
         os.unlink(name)
     res = out.split("\n")
@@ -275,7 +276,7 @@ def _run_shard(args):
         for l in lines:
             with open(name, "w") as f:
                 f.write(l + "\n")
-            rc1, o1 = sh(cmd + [name], timeout=max(30, timeout // 4))
+            rc1, o1 = sh(cmd + [name], timeout=max(30, timeout // 4), merge_stderr=False)
             o1 = o1.strip("\n").split("\n")
             res.append(o1[0] if (rc1 == 0 and len(o1) == 1) else f"CRASH rc={rc1} {' '.join(o1)[-200:]}")
             os.unlink(name)
